@@ -135,6 +135,14 @@ func randGap(r *rand.Rand, plain bool, mayBeEmpty bool) string {
 	if plain {
 		return pick(r, []string{" ", " ", " ", "  ", "\t", "\n", "\r\n", " \n ", "\n\n", " \t "})
 	}
+	// separators the scanner does not take for white space today (form feed, vertical tab, NEL, no-break and
+	// typographic spaces, line separator): such a text is rejected by the parser and the case is not judged;
+	// should the scanner ever accept one of them while the redaction patterns do not (round-3 seeded change
+	// C15-3), the password survives Sanitize and the oracle says so
+	if r.Intn(12) == 0 {
+		odd := pick(r, []string{"\u00a0", "\v", "\f", "\u0085", "\u2003", "\u2028", "\u3000", "\u1680", "\u202f", "\ufeff"})
+		return pick(r, []string{odd, odd + " ", " " + odd, odd + odd})
+	}
 	switch r.Intn(8) {
 	case 0:
 		if mayBeEmpty {
@@ -572,6 +580,10 @@ func knownSanitizeText(args []string) string {
 			set("C15-leak-password-dquote")
 		case len(litGap) == 0:
 			set("C15-leak-no-space-before-literal")
+		case !commentsAndSpace(kwGap) || !commentsAndSpace(litGap):
+			// a separator that is neither white space of the patterns nor a comment (the scanner does not accept
+			// any other today): not one of the recorded classes
+			return ""
 		case len(kwGap) == 0 || !allRegexSpace(kwGap) || !allRegexSpace(litGap):
 			set("C15-leak-comment-between-tokens")
 		case !c.create && hasRune(a.rs[c.kw2.end:c.eq.start], '='):
@@ -582,6 +594,30 @@ func knownSanitizeText(args []string) string {
 		class = "C15-leak-earlier-text-interferes"
 	}
 	return class
+}
+
+// commentsAndSpace: the gap consists of white space the redaction patterns know ([\t\n\f\r ]) and of
+// `/* … */` / `-- …` comments only.
+func commentsAndSpace(gap []rune) bool {
+	for i := 0; i < len(gap); {
+		switch {
+		case gap[i] == '/' && i+1 < len(gap) && gap[i+1] == '*':
+			j := i + 2
+			for j+1 < len(gap) && !(gap[j] == '*' && gap[j+1] == '/') {
+				j++
+			}
+			i = j + 2
+		case gap[i] == '-' && i+1 < len(gap) && gap[i+1] == '-':
+			for i < len(gap) && gap[i] != '\n' {
+				i++
+			}
+		case gap[i] == ' ' || gap[i] == '\t' || gap[i] == '\n' || gap[i] == '\f' || gap[i] == '\r':
+			i++
+		default:
+			return false
+		}
+	}
+	return true
 }
 
 // ---------------------------------------------------------------- sanitize.print
